@@ -100,6 +100,12 @@ def get_expansions(name, cutoff, order):
 def draw_values(rnd, n, style):
     if style == "dyadic":
         return np.array([rnd.randrange(-32, 33) / 16.0 for _ in range(n)])
+    if style == "coarse":
+        # few distinct values, many zeros: exact cancellations between different environments are common
+        return np.array([rnd.choice((-1.0, -0.5, 0.0, 0.0, 0.5, 1.0)) for _ in range(n)])
+    if style == "integer":
+        # an integer array (what a user typing whole numbers gets): arithmetic is exact, halves must not truncate
+        return np.array([rnd.randrange(-5, 6) for _ in range(n)], dtype=int)
     return np.array([rnd.gauss(0.0, 1.0) for _ in range(n)])
 
 
@@ -121,8 +127,11 @@ class World(object):
         self.tsvalues = draw_values(rnd, len(self.ts), w["values"])
         if w["kra"] == "list":
             self.kra = draw_values(rnd, len(jn), w["values"])
+        elif w["kra"] == "zero":
+            self.kra = 0                    # the documented default
         else:
-            self.kra = float(draw_values(rnd, 1, w["values"])[0])
+            self.kra = draw_values(rnd, 1, w["values"])[0]
+            self.kra = int(self.kra) if w["values"] == "integer" else float(self.kra)
         sup = supercell.ClusterSupercell(self.crys, self.S, spectator=self.spect)
         # "shared supercell" worlds: every sampler of the run (system under test, fresh references, the per-site
         # samplers of the vacancy walk, a decoy with other values) is built on ONE ClusterSupercell object, moving
@@ -138,7 +147,7 @@ class World(object):
         self.vacsite = jumping[w["vacsite"] % len(jumping)] if self.vac else None
         self.scale = float(np.sum(np.abs(self.evalues)) * max(1, self.nsites) +
                            np.sum(np.abs(self.tsvalues)) + np.sum(np.abs(self.kra)) + 1.0)
-        self.exact = w["values"] == "dyadic"
+        self.exact = w["values"] in ("dyadic", "coarse", "integer")
 
     def sampler(self, vacsite=None, decoy=False, private=False):
         """A brand-new sampler through the public constructors. decoy=True: a different sampler (other
@@ -230,6 +239,13 @@ class Run(RunBase):
             self.mc = self.W.sampler()
             self.tmpl = self.W.sampler(private=True)
             self.faults["sampler-built-on-shared-supercell"] += 1
+            if self.W.vac and world.get("vseed", 0) % 2:
+                # ... and the driver has moved on: the supercell object's own vacancy marker is changed (or removed)
+                # after the sampler was built; the sampler keeps the vacancy it was built with
+                k = world["vseed"] % 3
+                self.W.shared.addvacancy(None if k == 0 else self.W.jumping[(self.W.jumping.index(self.W.vacsite) + k) %
+                                                                          len(self.W.jumping)])
+                self.faults["supercell-vacancy-moved-after-construction"] += 1
         else:
             self.tmpl = self.W.sampler()          # never started; shallow copies serve as fresh references
             self.mc = copy.deepcopy(self.tmpl)    # system under test
@@ -437,9 +453,7 @@ class Run(RunBase):
             spec = rng.choice(["zeros", "ones", "current", "current"])
         op = {"op": "start", "occ": spec, "alias": rng.random() < 0.5}
         if rng.random() < 0.3:
-            # C35 stays with int64 arrays, the compiled sampler's declared type (MonteCarloSampler_param copies the
-            # reference sampler's array as it is, so an int8/int32 occupation cannot be compiled: DESIGN 6, O3)
-            op["arr"] = rng.choice(("int32", "int8", "strided") if self.prop != "C35" else ("strided", "strided"))
+            op["arr"] = rng.choice(("int32", "int8", "strided"))
         return op
 
     def propose_c35(self, rng, occd, unoc):
@@ -990,8 +1004,8 @@ class Engine(object):
             if vac and nsites < 2:
                 continue   # a cell whose only site is the vacancy holds no atoms: no sampler to speak of
             w = {"crystal": c, "super": s, "cutoff": cutoff, "order": order, "vac": vac,
-                 "vacsite": rng.randrange(64), "jumps": jumps, "kra": rng.choice(("scalar", "list")),
-                 "ts": jumps and ts_drawn, "values": rng.choice(("dyadic", "dyadic", "normal")),
+                 "vacsite": rng.randrange(64), "jumps": jumps, "kra": rng.choice(("scalar", "list", "zero")),
+                 "ts": jumps and ts_drawn, "values": rng.choice(("dyadic", "dyadic", "normal", "coarse", "integer")),
                  "vseed": rng.randrange(1 << 30), "sseed": rng.randrange(1 << 30)}
             w["shared_sup"] = rng.choice((False, False, False, False, "values", "jumpnet"))
             w["quiet"] = rng.choice((0, 0, 0.5, 0.9))
